@@ -365,7 +365,11 @@ def _slice_agrees(dig, val):
 def _writer_key_ok(facts, body, term, key):
     """pack writer: the key comes (through the local index map) from the keys of the stage"""
     if body.kind != "closure":
-        return False
+        # plain loop over the local index map: the key must flow from the keys of self.stage
+        from ..flows import flow_of
+        has_write = any(t.callee is not None and t.callee.trait == ADAPTER_TRAIT and t.callee.name == "write_object" for _, t in body.calls())
+        src = flow_of(body).operand_sources(term.args[1])
+        return has_write and any(n[0] == "pfield" and n[2] == "stage" for n in src) and not contains_call(key, "digest_bytes")
     parent = facts.body(body.parent)
     if parent is None:
         return False
